@@ -12,5 +12,6 @@ NEXT Next
 INVARIANT WireIsRaw
 INVARIANT EditsVisible
 INVARIANT RawIsLastSent
+INVARIANT NothingSentWhenRefused
 INVARIANT Emit
 CHECK_DEADLOCK FALSE
